@@ -89,7 +89,7 @@ class IntervalGrader(SingleListGrader):
         Validate the IntervalGrader's configuration.
         """
         # Step 1: Provide the default subgrader
-        use_config = config if config else kwargs
+        use_config = config if config is not None else kwargs
         if use_config.get('subgrader') is None:
             # Work on a copy, so that the author's configuration dictionary is left untouched
             use_config = dict(use_config)
